@@ -107,3 +107,5 @@ mod writer;
 
 #[cfg(metrics_verif)]
 pub mod verif_driver;
+#[cfg(metrics_verif)]
+pub mod verif_state_driver;
